@@ -9,7 +9,8 @@ from ..astutil import ancestors, block_of, calls_in, dotted, guard_atoms, lexica
 from ..cfg import no_exc
 from ..report import Registry, chain, sub
 from ._helpers_rules_d import call_nodes, callee_is, guard_atom_set, kw, qualname
-from ._helpers_rob_B2 import bool_binds, expand, helper_key_stores, key_store_helpers, resolved_atom_set
+from ._helpers_rob_B2 import (bind_args, bool_binds, expand, helper_key_stores, is_bound_method, key_store_helpers, module_functions_by_name, references,
+                              resolved_atom_set)
 
 R = Registry(
     "C34",
@@ -869,6 +870,37 @@ def _attach_evidence(ctx, g, fn, N, var: str) -> str:
     return ""
 
 
+def _attached_at_call_sites(ctx, m, pm, fn, var: str) -> str:
+    """For a PRIVATE helper that registers its parameter `var`: every use of the helper in its module is a call whose argument
+    is shown to be attached in the caller (attach protocol / attachment guard there, or a caller listed in ATTACHED_BY_CALLER)."""
+    params = [a.arg for a in fn.args.posonlyargs + fn.args.args + fn.args.kwonlyargs]
+    if var not in params or not fn.name.startswith("_") or fn.name.startswith("__") or len(module_functions_by_name(m.tree).get(fn.name, [])) != 1:
+        return ""
+    calls, other = references(m.tree, fn.name, pm)
+    if other or not calls:
+        return ""
+    why = []
+    for encl, c in calls:
+        if encl is None:
+            return ""
+        b = bind_args(fn, c, is_bound_method(fn, pm) and isinstance(c.func, ast.Attribute))
+        a = b.get(var) if b else None
+        if not isinstance(a, ast.Name):
+            return ""
+        q = qualname(pm, encl)
+        ck = f"{m.relpath}::{q + '.' if q else ''}{encl.name}"
+        gc = ctx.cfg(encl)
+        sites = call_nodes(gc, lambda x: x is c)
+        if not sites:
+            return ""
+        for N in sites:
+            ev_ = _attach_evidence(ctx, gc, encl, N, a.id) or ATTACHED_BY_CALLER.get(ck, "")
+            if not ev_:
+                return ""
+            why.append(f"{ck.partition('::')[2]}: {ev_}")
+    return "helper, called only with attached states (" + "; ".join(dict.fromkeys(why)) + ")"
+
+
 def _bookkeeping_source(pm, fn, N_stmt, var: str):
     """Name of the transaction bookkeeping map (`self.<M>`) whose iteration binds `var`, if any."""
     for a in ancestors(pm, N_stmt):
@@ -928,6 +960,8 @@ def r9(ctx):
                         if not ev_ and fkey in ATTACHED_BY_CALLER:
                             ev_ = ATTACHED_BY_CALLER[fkey]
                         if not ev_:
+                            ev_ = _attached_at_call_sites(ctx, m, pm, fn, var)
+                        if not ev_:
                             src = _bookkeeping_source(pm, fn, g.node(N).stmt, var)
                             if src is not None and src in tx_pruned:
                                 ev_ = f"states come from self.{src}, which Session._expunge_states prunes"
@@ -974,16 +1008,17 @@ R.mutant("benign-get-reorder-conjuncts", SESSION, sub("            not populate_
 _RESTORE_LOOP = ("            self.session.identity_map.safe_discard(s)\n\n"
                  "            # restore the old key and the object, but only if we didn't\n"
                  "            # expunge; an expunged object is transient and has no key\n"
-                 "            if s not in to_expunge:\n"
+                 "            if s not in to_expunge and s.session_id == self.session.hash_key:\n"
                  "                s.key = oldkey\n"
                  "                self.session.identity_map.replace(s)\n")
+_RESTORE_IF = "            if s not in to_expunge and s.session_id == self.session.hash_key:\n"
 R.mutant("seed-restore-rekeys-before-discard", SESSION,
-         sub(_RESTORE_LOOP, "            if s not in to_expunge:\n                s.key = oldkey\n\n            self.session.identity_map.safe_discard(s)\n\n"
-                            "            if s not in to_expunge:\n                self.session.identity_map.replace(s)\n"), "C34-R6")
+         sub(_RESTORE_LOOP, _RESTORE_IF + "                s.key = oldkey\n\n            self.session.identity_map.safe_discard(s)\n\n"
+                            + _RESTORE_IF + "                self.session.identity_map.replace(s)\n"), "C34-R6")
 R.mutant("restore-rekeys-without-reregistering", SESSION,
-         sub(_RESTORE_LOOP, "            self.session.identity_map.safe_discard(s)\n\n            if s not in to_expunge:\n                s.key = oldkey\n"), "C34-R6")
+         sub(_RESTORE_LOOP, "            self.session.identity_map.safe_discard(s)\n\n" + _RESTORE_IF + "                s.key = oldkey\n"), "C34-R6")
 R.mutant("restore-registers-before-rekey", SESSION,
-         sub(_RESTORE_LOOP, "            self.session.identity_map.safe_discard(s)\n\n            if s not in to_expunge:\n                self.session.identity_map.replace(s)\n                s.key = oldkey\n"), "C34-R6")
+         sub(_RESTORE_LOOP, "            self.session.identity_map.safe_discard(s)\n\n" + _RESTORE_IF + "                self.session.identity_map.replace(s)\n                s.key = oldkey\n"), "C34-R6")
 R.mutant("register-persistent-switch-without-discard", SESSION,
          sub("                    # map (see test/orm/test_naturalpks.py ReversePKsTest)\n                    self.identity_map.safe_discard(state)\n", "                    # map (see test/orm/test_naturalpks.py ReversePKsTest)\n"), "C34-R6")
 R.mutant("make-transient-removes-key-before-expunge", SESSION,
@@ -998,7 +1033,7 @@ R.mutant("expunge-detaches-to-transient-before-discard", SESSION,
 R.mutant("benign-restore-alias-and-rename", SESSION,
          sub("        for s, (oldkey, newkey) in self._key_switches.items():\n            # we probably can do this conditionally based on\n            # if we expunged or not, but safe_discard does that anyway\n" + _RESTORE_LOOP,
              "        imap = self.session.identity_map\n        for st_, (k_old, k_new) in self._key_switches.items():\n            imap.safe_discard(st_)\n            _dbg = k_new\n"
-             "            if st_ not in to_expunge:\n                st_.key = k_old\n                imap.replace(st_)\n"), None)
+             "            if st_ not in to_expunge and st_.session_id == self.session.hash_key:\n                st_.key = k_old\n                imap.replace(st_)\n"), None)
 R.mutant("benign-register-persistent-discard-in-helper", SESSION,
          chain(sub("                    # map (see test/orm/test_naturalpks.py ReversePKsTest)\n                    self.identity_map.safe_discard(state)\n",
                    "                    # map (see test/orm/test_naturalpks.py ReversePKsTest)\n                    self._forget_identity(state)\n"),
@@ -1044,3 +1079,72 @@ R.mutant("loader-registers-unattached-state", LOADING,
 R.mutant("benign-update-impl-alias-map", SESSION,
          sub("        self._deleted.pop(state, None)\n        if revert_deletion:\n            self.identity_map.replace(state)\n        else:\n            self.identity_map.add(state)\n",
              "        self._deleted.pop(state, None)\n        imap = self.identity_map\n        if revert_deletion:\n            imap.replace(state)\n        else:\n            imap.add(state)\n"), None)
+
+# ---------------------------------------------------------------------- rob-B2: behaviour-preserving refactorings that must stay silent
+# (families of benign/rfB_5, rfB_12, rfB_15, seeded/C34_1's boolean local) and breaking edits made THROUGH the same shapes
+_RESTORE_HEAD = ("        for s, (oldkey, newkey) in self._key_switches.items():\n            # we probably can do this conditionally based on\n"
+                 "            # if we expunged or not, but safe_discard does that anyway\n")
+R.mutant("benign-restore-guard-in-boolean-local", SESSION,
+         sub(_RESTORE_LOOP, "            restore = (\n                s not in to_expunge\n                and s.session_id == self.session.hash_key\n            )\n"
+                            "            self.session.identity_map.safe_discard(s)\n\n            if restore:\n                s.key = oldkey\n                self.session.identity_map.replace(s)\n"), None)
+R.mutant("restore-boolean-local-without-attachment-test", SESSION,
+         sub(_RESTORE_LOOP, "            restore = s not in to_expunge\n            self.session.identity_map.safe_discard(s)\n\n            if restore:\n                s.key = oldkey\n"
+                            "                self.session.identity_map.replace(s)\n"), "C34-R9")
+R.mutant("restore-boolean-local-rekeys-before-discard", SESSION,
+         sub(_RESTORE_LOOP, "            restore = (\n                s not in to_expunge\n                and s.session_id == self.session.hash_key\n            )\n            if restore:\n                s.key = oldkey\n\n"
+                            "            self.session.identity_map.safe_discard(s)\n\n            if restore:\n                self.session.identity_map.replace(s)\n"), "C34-R6")
+# benign/rfB_5 re-rolled on today's tree: session alias, renamed loop variable, `continue` instead of the nested block
+R.mutant("benign-restore-session-alias-and-continue", SESSION,
+         chain(sub("        to_expunge = set(self._new).union(self.session._new)\n        self.session._expunge_states(to_expunge, to_transient=True)\n",
+                   "        sess = self.session\n\n        to_expunge = set(self._new).union(sess._new)\n        sess._expunge_states(to_expunge, to_transient=True)\n"),
+               sub(_RESTORE_HEAD + _RESTORE_LOOP,
+                   "        for state, (oldkey, newkey) in self._key_switches.items():\n            sess.identity_map.safe_discard(state)\n\n"
+                   "            if state in to_expunge or state.session_id != sess.hash_key:\n                continue\n            state.key = oldkey\n            sess.identity_map.replace(state)\n")), None)
+R.mutant("restore-continue-form-without-attachment-test", SESSION,
+         sub(_RESTORE_HEAD + _RESTORE_LOOP,
+             "        for state, (oldkey, newkey) in self._key_switches.items():\n            self.session.identity_map.safe_discard(state)\n\n"
+             "            if state in to_expunge:\n                continue\n            state.key = oldkey\n            self.session.identity_map.replace(state)\n"), "C34-R9")
+# Session._get_impl: the guard named / split / inverted (benign/rfB_12)
+_GI_OLD = "        if (\n            not populate_existing\n            and not mapper.always_refresh\n            and for_update_arg is None\n        ):\n            instance = self._identity_lookup("
+_GI_HIT = "                if not isinstance(instance, mapper.class_):\n                    return None\n                return instance\n"
+R.mutant("benign-get-guard-named-and-hit-inverted", SESSION,
+         chain(sub(_GI_OLD, "        check_identity_map = (\n            not populate_existing\n            and not mapper.always_refresh\n            and for_update_arg is None\n        )\n"
+                            "        if check_identity_map:\n            instance = self._identity_lookup("),
+               sub(_GI_HIT, "                if isinstance(instance, mapper.class_):\n                    return instance\n                else:\n                    return None\n")), None)
+R.mutant("benign-get-guard-split-and-hit-named", SESSION,
+         chain(sub(_GI_OLD, "        refresh = populate_existing or mapper.always_refresh\n        if not refresh and for_update_arg is None:\n            instance = self._identity_lookup("),
+               sub("            if instance is not None:\n                # reject calls for id in identity map but class\n", "            found = instance is not None\n            if found:\n                # reject calls for id in identity map but class\n")), None)
+R.mutant("get-guard-named-with-extra-reason", SESSION,
+         sub(_GI_OLD, "        check_identity_map = (\n            not populate_existing\n            and not mapper.always_refresh\n            and for_update_arg is None\n            and not options\n        )\n"
+                      "        if check_identity_map:\n            instance = self._identity_lookup("), "C34-R5")
+R.mutant("get-guard-named-drops-always-refresh", SESSION,
+         sub(_GI_OLD, "        check_identity_map = not populate_existing and for_update_arg is None\n        if check_identity_map:\n            instance = self._identity_lookup("), "C34-R5")
+R.mutant("get-hit-named-falls-through", SESSION,
+         chain(sub("            if instance is not None:\n                # reject calls for id in identity map but class\n", "            found = instance is not None\n            if found:\n                # reject calls for id in identity map but class\n"),
+               sub(_GI_HIT, "                if not isinstance(instance, mapper.class_):\n                    return None\n")), "C34-R5")
+# the primary-key switch of _register_persistent extracted into a helper (benign/rfB_15)
+_SW_OLD = ("                    # primary key switch. use safe_discard() in case another\n                    # state has already replaced this one in the identity\n"
+           "                    # map (see test/orm/test_naturalpks.py ReversePKsTest)\n                    self.identity_map.safe_discard(state)\n"
+           "                    trans = self._transaction\n                    assert trans is not None\n"
+           "                    if state in trans._key_switches:\n                        orig_key = trans._key_switches[state][0]\n                    else:\n                        orig_key = state.key\n"
+           "                    trans._key_switches[state] = (\n                        orig_key,\n                        instance_key,\n                    )\n                    state.key = instance_key\n")
+_SW_HEAD = "    def _register_altered(self, states: Iterable[InstanceState[Any]]) -> None:\n"
+_SW_RECORD = ("        trans = self._transaction\n        assert trans is not None\n        key_switches = trans._key_switches\n        if state in key_switches:\n"
+              "            orig_key = key_switches[state][0]\n        else:\n            orig_key = state.key\n        key_switches[state] = (orig_key, instance_key)\n")
+_SW_CALL = "                    self._switch_identity_key(state, instance_key)\n"
+
+
+def _switch_helper(call: str, body: str, *more):
+    return chain(sub(_SW_OLD, call), sub(_SW_HEAD, "    def _switch_identity_key(self, state: InstanceState[Any], instance_key: Any) -> None:\n" + body + "\n" + _SW_HEAD), *more)
+
+
+R.mutant("benign-key-switch-in-helper", SESSION, _switch_helper(_SW_CALL, "        self.identity_map.safe_discard(state)\n" + _SW_RECORD + "        state.key = instance_key\n"), None)
+R.mutant("benign-key-switch-in-helper-caller-discards", SESSION,
+         _switch_helper("                    self.identity_map.safe_discard(state)\n" + _SW_CALL, _SW_RECORD + "        state.key = instance_key\n"), None)
+R.mutant("benign-key-switch-helper-does-everything", SESSION,
+         _switch_helper(_SW_CALL, "        self.identity_map.safe_discard(state)\n" + _SW_RECORD + "        state.key = instance_key\n        self.identity_map.replace(state)\n"), None)
+R.mutant("key-switch-helper-discards-after-store", SESSION, _switch_helper(_SW_CALL, _SW_RECORD + "        state.key = instance_key\n        self.identity_map.safe_discard(state)\n"), "C34-R6")
+R.mutant("key-switch-helper-nobody-discards", SESSION, _switch_helper(_SW_CALL, _SW_RECORD + "        state.key = instance_key\n"), "C34-R6")
+R.mutant("key-switch-helper-caller-never-registers", SESSION,
+         _switch_helper(_SW_CALL, "        self.identity_map.safe_discard(state)\n" + _SW_RECORD + "        state.key = instance_key\n",
+                        sub("                old = self.identity_map.replace(state)\n", "                old = None\n")), "C34-R6")
